@@ -395,10 +395,11 @@ def check_stateless(sess: Session, run, key_prefix, meta, outputs=None, check_en
                     break
             return bad, bool(idom.corner_hits)
 
-        verdict, model, bad = decide(sess, run, key, neq, replay)
+        pre = list(getattr(ref, "preconditions", []))
+        verdict, model, bad = decide(sess, run, key, neq, replay, extra=pre)
         if not vacuity_done and verdict == "unsat":
             # reachability twin: the same encoding must be able to differ from reference+1
-            tw = Solve([z3.Or(*[o != r + 1 for (_s, o, r) in diffs])] + sess.content_constraints(), 20_000)
+            tw = Solve([z3.Or(*[o != r + 1 for (_s, o, r) in diffs])] + pre + sess.content_constraints(), 20_000)
             if tw.verdict == "unsat":
                 run.harness_error(key, "vacuity twin UNSAT")
             vacuity_done = True
